@@ -58,6 +58,34 @@ static int spec_must_escape(unsigned char c, int flags)
 }
 
 static char spec_hex(unsigned v) { return (char)(v < 10 ? '0' + v : 'A' + (v - 10)); }
+static int spec_is_hex_of(char ch, unsigned v)   /* either case is a well-formed triplet digit */
+{ return ch == spec_hex(v) || (v >= 10 && ch == (char)('a' + (v - 10))); }
+
+/* PROPERTY-LEVEL shape (C31/C34): out is a unit-wise encoding of url -- every input byte appears either copied or as a
+ * well-formed %XX triplet of itself, in order, nothing else, terminated; '%' is never copied raw when the flags ask for
+ * reversibility (UNSAFE without NOPERCENT); with CTRLS no control/DEL/8-bit byte is copied raw; with UNSAFE and without
+ * NOSPACE nothing <= ' ' is copied raw. Which *other* bytes get escaped is not the property's business (see "pinned"). */
+static int spec_escape_shape(const char *url, int flags, const char *out)
+{
+    size_t p = 0;
+    for (size_t i = 0; i < N; i++) {
+        unsigned char c = (unsigned char)url[i];
+        if (c == 0) return out[p] == 0;
+        int raw_ok = 1;
+        if ((flags & RFC1738_ESCAPE_UNSAFE) && !(flags & RFC1738_ESCAPE_NOPERCENT) && c == '%') raw_ok = 0;
+        if ((flags & RFC1738_ESCAPE_CTRLS) && (c <= 0x1F || c >= 0x7F)) raw_ok = 0;
+        if ((flags & RFC1738_ESCAPE_UNSAFE) && !(flags & RFC1738_ESCAPE_NOSPACE) && c <= ' ') raw_ok = 0;
+        if (raw_ok && out[p] == (char)c && 1) {
+            /* copied. ('%' is copied raw only under flag sets that do not ask for reversibility; there the code never
+             * escapes it, and the shape is read greedily as a copy) */
+            p += 1;
+        } else {
+            if (!(out[p] == '%' && spec_is_hex_of(out[p + 1], c >> 4) && spec_is_hex_of(out[p + 2], c & 15))) return 0;
+            p += 3;
+        }
+    }
+    return 0;
+}
 
 /* out == enc(url, flags) exactly, including the terminator */
 static int spec_escape_exact(const char *url, int flags, const char *out)
@@ -111,7 +139,7 @@ static void esc_ensures_common(const char *url, char *r)
     __CPROVER_assert(__CPROVER_POINTER_OFFSET(rfc1738_esc_buf) == 0 &&
                      __CPROVER_OBJECT_SIZE(rfc1738_esc_buf) == rfc1738_esc_bufsize && rfc1738_esc_bufsize % 3 == 1,
                      "ensures: static buffer invariant (a block of exactly bufsize bytes, bufsize = 3k+1) re-established");
-    __CPROVER_assert(tables_ok(), "ensures: tables unchanged");
+    __CPROVER_assert(tables_ok(), "ensures: tables unchanged (frame)");
     __CPROVER_assert(url[N - 1] == 0, "ensures: input not written (sentinel)");
 }
 
@@ -153,9 +181,12 @@ void h_escape_exact(void)
     char *r = rfc1738_do_escape(url, flags);
     esc_ensures_common(url, r);
 #ifdef TWIN_EXACT
-    __CPROVER_assert(!spec_escape_exact(url, flags, r), "ensures: TWIN (negated) exact output");
+    __CPROVER_assert(!spec_escape_shape(url, flags, r), "ensures: TWIN (negated) unit-wise encoding");
 #else
-    __CPROVER_assert(spec_escape_exact(url, flags, r), "ensures: result == enc(url, flags) exactly");
+    __CPROVER_assert(spec_escape_shape(url, flags, r),
+                     "ensures: result is a unit-wise encoding of url (copied bytes and well-formed %XX triplets only; '%', controls, space never raw when the flags forbid)");
+    __CPROVER_assert(spec_escape_exact(url, flags, r),
+                     "pinned: result == enc(url, flags) with exactly the RFC 1738 unsafe/reserved classes of the current code");
 #endif
 #ifdef REACH
     __CPROVER_assert(!(r[0] == '%' && r[3] == 'a' && (flags & RFC1738_ESCAPE_RESERVED)), "reach: escaped then copied");
